@@ -88,4 +88,55 @@ ApplySpec(items, op) ==
             [] op.act = "Insert" -> InsAt(items, PyIdx(op.i, Len(items)), ns)]
 
 AllNodes(items) == \A i \in 1..Len(items) : items[i].k \in NodeKinds
+
+-----------------------------------------------------------------------------
+(* Beyond C14: the mutators TagList inherits from collections.UserList unchanged.  None of them is in C14's list of *)
+(* operations; they are specified as the code behaves (bin/extra list binds them to the real class).                 *)
+(*   Pop(i) / DelItem(i) / Remove(v) / Clear / Reverse keep every stored element a node; Copy normalises again;      *)
+(*   SetItem(i, a) - `x[i] = a` - stores the argument AS IS: no flattening, no None-dropping, no conversion of       *)
+(*   numbers, no rejection.  A deliberate deviation of the model from what one would specify (named here, as the     *)
+(*   guidance asks): after it AllNodes can be false and rendering raises.                                            *)
+RawLabel(a) == CASE a.k = "num" -> a.v [] a.k = "none" -> "None" [] a.k \in Spliced -> a.k [] OTHER -> "bad"
+StoredAsIs(a) == IF a.k \in NodeKinds THEN Node(a.k, a.v) ELSE Node("raw", RawLabel(a))
+\* Python index of an existing element (0-based i, negative from the end) as a 1-based position, 0 if out of range
+Pos(i, n) == IF i >= 0 THEN (IF i < n THEN i + 1 ELSE 0) ELSE (IF n + i >= 0 THEN n + i + 1 ELSE 0)
+Without(s, p) == SubSeq(s, 1, p - 1) \o SubSeq(s, p + 1, Len(s))
+\* `stored == value` as list.remove evaluates it: str and HTML() compare by text (UserString), tags structurally,
+\* dependencies by value, numbers and None only with an element stored as is; objects without __eq__ (the tagifiable
+\* and unsupported test objects) are equal only to themselves, and a fresh argument never is
+EqStored(nd, a) ==
+  CASE a.k \in {"str", "html"} -> nd.k \in {"str", "html"} /\ nd.v = a.v
+    [] a.k \in {"tag", "dep"}  -> nd = Node(a.k, a.v)
+    [] a.k \in {"num", "none"} -> nd = Node("raw", RawLabel(a))
+    [] OTHER -> FALSE
+FirstEq(s, a) == IF \E p \in 1..Len(s) : EqStored(s[p], a)
+                 THEN CHOOSE p \in 1..Len(s) : EqStored(s[p], a) /\ \A q \in 1..(p - 1) : ~EqStored(s[q], a) ELSE 0
+\* the labels of elements stored as is do not carry the contents of containers: where the outcome depends on them the
+\* specification leaves the step open (Loose) instead of guessing
+RawContainer(nd) == nd.k = "raw" /\ nd.v \in Spliced
+Loose(items, op) == \/ (op.act = "Copy" /\ \E p \in 1..Len(items) : RawContainer(items[p]))
+                    \/ (op.act = "Remove" /\ (op.args[1].k \in Spliced \/ \E p \in 1..Len(items) : RawContainer(items[p])))
+\* x.copy() is UserList.copy -> TagList(self): the constructor normalises again, so numbers stored as is become text,
+\* None disappears and an unsupported object makes the copy fail
+Renormalised(items) ==
+  LET keep == SelectSeq(items, LAMBDA nd : ~(nd.k = "raw" /\ nd.v = "None")) IN
+  [p \in 1..Len(keep) |-> IF keep[p].k = "raw" THEN Node("str", keep[p].v) ELSE keep[p]]
+ApplyInherited(items, op) ==
+  CASE op.act \in {"Pop", "DelItem"} ->
+          LET p == Pos(op.i, Len(items)) IN
+          IF p = 0 THEN [exc |-> "IndexError", items |-> items] ELSE [exc |-> "none", items |-> Without(items, p)]
+    [] op.act = "Remove" ->
+          LET p == FirstEq(items, op.args[1]) IN
+          IF p = 0 THEN [exc |-> "ValueError", items |-> items] ELSE [exc |-> "none", items |-> Without(items, p)]
+    [] op.act = "Clear"   -> [exc |-> "none", items |-> <<>>]
+    [] op.act = "Reverse" -> [exc |-> "none", items |-> Reverse(items)]
+    [] op.act = "Copy"    -> IF \E p \in 1..Len(items) : items[p] = Node("raw", "bad")
+                             THEN [exc |-> "TypeError", items |-> items]
+                             ELSE [exc |-> "none", items |-> Renormalised(items)]
+    [] op.act = "SetItem" ->
+          LET p == Pos(op.i, Len(items)) IN
+          IF p = 0 THEN [exc |-> "IndexError", items |-> items]
+          ELSE [exc |-> "none", items |-> [items EXCEPT ![p] = StoredAsIs(op.args[1])]]
+InheritedActs == {"Pop", "DelItem", "Remove", "Clear", "Reverse", "Copy", "SetItem"}
+ApplyAny(items, op) == IF op.act \in InheritedActs THEN ApplyInherited(items, op) ELSE Apply(items, op)
 =============================================================================
